@@ -519,6 +519,12 @@ func fetchVisibility(r *Runner, rng *sysgen.RNG, res *HistResult) {
 			Linux: &api.LinuxPodSandbox{CgroupParent: "/kubepods/besteffort/podx"}}
 		d := time.Duration(rng.Intn(300)) * time.Microsecond
 		r.Inst.RM.Lock()
+		if i%2 == 1 {
+			// the pod is already known (a Synchronize listed it just before its RunPodSandbox arrives, with a pod-resources
+			// list that did not have it yet): the fetch started by RunPodSandbox must still reach every later reader
+			cch.InsertPod(pod, nil)
+			res.Stats["c15_fetches_for_known_pods"]++
+		}
 		p := cch.InsertPod(pod, ch)
 		r.Inst.RM.Unlock()
 		go func() {
@@ -530,6 +536,9 @@ func fetchVisibility(r *Runner, rng *sysgen.RNG, res *HistResult) {
 			runtime.Gosched()
 		}
 		got := p.GetPodResources()
+		if lp, ok := cch.LookupPod(pod.Id); ok && got != nil && got.GetName() == want.Name {
+			got = lp.GetPodResources() // and through the cache's own copy of the pod
+		}
 		res.Stats["c15_fetches_checked"]++
 		if got == nil || got.GetName() != want.Name {
 			res.Viol = append(res.Viol, Violation{Prop: "C15", Check: "fetch-missed", Sig: "pod.GetPodResources", Hist: r.Hist,
